@@ -364,7 +364,7 @@ func c01opts(k *mon.Case) fontgen.Opts {
 
 func runC01(c *mon.Ctx) {
 	childOut := os.Getenv("C01_CHILD_HASH")
-	c.Stratum("constructed", c.N(800, 12000), func(k *mon.Case) {
+	c.Stratum("constructed", c.N(500, 12000), func(k *mon.Case) {
 		o := c01opts(k)
 		f, info := fontgen.Font(k.Rng, o)
 		if f.CreationTime.IsZero() && f.ModificationTime.IsZero() {
@@ -462,7 +462,7 @@ func runC01(c *mon.Ctx) {
 
 	// bytes stratum: corpus files and mutants the reader accepts
 	corpus := corpusFiles(c)
-	c.Stratum("bytes", c.N(300, 6000), func(k *mon.Case) {
+	c.Stratum("bytes", c.N(200, 6000), func(k *mon.Case) {
 		r := k.Rng
 		var b []byte
 		var label string
